@@ -15,7 +15,8 @@ TOL = 1e-9   # relative to max(1, |expected|_inf); inputs are O(1), sizes <= 13x
 
 RULE = ('shapes: every (m,n) up to the tier bound (all parity pairs, square and not, 1-sample axes included) plus a few '
         'larger non-square ones; objects/PSFs random real (uniform, signed), impulses at every position of the small shapes, '
-        'non-negative PSFs (random, gaussian, impulse, constant); transfer-function lists of length 0..4 given as real / '
+        'non-negative PSFs (random, gaussian, impulse, constant) as arrays and inside RichData / duck-typed containers; float32, integer, '
+        'Fortran-ordered and strided inputs; large / prime / long-thin shapes (33x37 .. 128x128) for the size-gated paths; transfer-function lists of length 0..4 given as real / '
         'complex arrays and as callables of fx, fy, fr, ft (jitter, smear, pixel, OLPF and asymmetric test functions), in '
         'the shifted and the unshifted convention, on internally built and on caller-supplied (1-D / 2-D, with / without fr, ft) '
         'frequency grids, alone and mixed with pre-evaluated arrays; a case is non-trivial unless the array has a single sample; '
@@ -94,6 +95,12 @@ def _callable(kind, p1, p2):
         return lambda fy: 1.0 / (1.0 + p1 * fy * fy + p2 * fy)
     if kind == 'ft':
         return lambda ft: 1.0 + p1 * np.cos(ft) + p2 * np.sin(ft)
+    if kind == 'phase':          # complex: linear phase = sub-sample translation by (p2, p1) samples*dx
+        return lambda fx, fy: np.exp(-2j * np.pi * (p1 * fx + p2 * fy))
+    if kind == 'const':          # returns a Python scalar, not an array
+        return lambda fr: float(p1)
+    if kind == 'noarg':          # takes none of fx, fy, fr, ft
+        return lambda: float(p1)
     raise ValueError(kind)
 
 
@@ -118,7 +125,8 @@ def _eval_callable(kind, p1, p2, shape, dx, shift):
     for k, v in (('fx', fx), ('fy', fy), ('fr', fr), ('ft', ft)):
         if k in params:
             kw[k] = v
-    return np.broadcast_to(np.asarray(f(**kw), dtype=float), shape).copy()
+    v = np.asarray(f(**kw))
+    return np.broadcast_to(v.astype(complex if np.iscomplexobj(v) else float), shape).copy()
 
 
 # ------------------------------------------------------------------------------------------------
@@ -223,12 +231,15 @@ def pred_tf_callable(inp):
     calls = inp['calls']
     res = {}
     for shift in (True, False):
-        fs = [_callable(*c) for c in calls]
-        got = cv.apply_transfer_functions(o, dx, fs, shift=shift)
         arrs = [_eval_callable(c[0], c[1], c[2], o.shape, dx, shift) for c in calls]
         exp = cv.apply_transfer_functions(o, dx, arrs, shift=shift)
+        # entries flagged in `as_array` are passed pre-evaluated: arrays before / between / after callables
+        flags = list(inp.get('as_array') or [False] * len(calls))
+        fs = [a if fl else _callable(*c) for c, a, fl in zip(calls, arrs, flags)]
+        got = cv.apply_transfer_functions(o, dx, fs, shift=shift)
         if not _close(got, exp):
-            return False, (f'callables {[c[0] for c in calls]} with shift={shift} differ from the arrays they evaluate to on '
+            kinds = [('array:' if fl else '') + c[0] for c, fl in zip(calls, flags)]
+            return False, (f'transfer functions {kinds} with shift={shift} differ from the arrays they evaluate to on '
                            f'the frequency grid of that convention: {_err(got, exp)}')
         res[shift] = got
     return _close(res[True], res[False]), f'callables {[c[0] for c in calls]}: shift=True vs shift=False image: {_err(res[True], res[False])}'
@@ -315,9 +326,89 @@ def pred_tf_callable_grids(inp):
     return _close(res[True], res[False]), f'supplied grids: shift=True vs shift=False image: {_err(res[True], res[False])}'
 
 
+class _Duck:
+    """any object with .data / .dx is accepted by transform_psf"""
+    def __init__(self, data, dx):
+        self.data, self.dx = data, dx
+
+
+def pred_otf_container(inp):
+    """RichData / duck-typed containers give what their .data array gives (values, and the frequency spacing of the
+    returned RichData), for transform_psf, mtf, ptf, otf; the caller's PSF is not modified"""
+    ot = _impl()[1]
+    from prysm._richdata import RichData
+    p = _arr(inp['psf'])
+    dx = inp.get('dx', 1.0)
+    keep = p.copy()
+    for kind in ('richdata', 'duck'):
+        box = RichData(p, dx, 0.5) if kind == 'richdata' else _Duck(p, dx)
+        d_arr, df_arr = ot.transform_psf(p, dx)
+        d_box, df_box = ot.transform_psf(box)
+        if not _close(d_box, d_arr) or df_box != df_arr:
+            return False, f'transform_psf({kind}) differs from transform_psf(array, dx): {_err(d_box, d_arr)}; df {df_box!r} vs {df_arr!r}'
+        for name in ('mtf_from_psf', 'ptf_from_psf', 'otf_from_psf'):
+            f = getattr(ot, name)
+            a, b = f(p, dx), f(box)
+            if name == 'ptf_from_psf':
+                w = np.abs(ot.otf_from_psf(p, dx).data) > 1e-6
+                ok = a.data.shape == b.data.shape and _close(np.exp(1j * b.data[w]), np.exp(1j * a.data[w]), 1e-8)
+            else:
+                ok = _close(b.data, a.data)
+            if not ok:
+                return False, f'{name}({kind}) differs from {name}(array, dx): {_err(b.data, a.data)}'
+            if b.dx != a.dx or abs(a.dx - 1000 / (p.shape[0] * dx)) > 1e-12 * abs(a.dx):
+                return False, f'{name}({kind}).dx = {b.dx!r}, array path {a.dx!r}, documented 1000/(rows*dx) = {1000 / (p.shape[0] * dx)!r}'
+        if not np.array_equal(p, keep):
+            return False, f'the caller\'s PSF array was modified in place ({kind})'
+    return True, 'ok'
+
+
+def _variant(a, variant):
+    """the same values in another container: dtype / memory layout"""
+    a = np.asarray(a, dtype=float)
+    if variant == 'float32':
+        return a.astype(np.float32), 2e-4
+    if variant == 'int':
+        return np.rint(a * 40).astype(np.int32), None      # integer-valued: compare with the float array of those integers
+    if variant == 'fortran':
+        return np.asfortranarray(a), TOL
+    if variant == 'strided':
+        big = np.zeros((2 * a.shape[0], 3 * a.shape[1]))
+        big[::2, ::3] = a
+        return big[::2, ::3], TOL
+    if variant == 'reversed':
+        return a[::-1, ::-1][::-1, ::-1], TOL
+    raise ValueError(variant)
+
+
+def pred_input_variants(inp):
+    """conv / apply_transfer_functions / mtf, ptf, otf on float32, integer, Fortran-ordered and strided inputs give what
+    the contiguous float64 arrays of the same values give"""
+    cv, ot = _impl()[:2]
+    variant = inp['variant']
+    o, h = _arr(inp['o']), np.abs(_arr(inp['h'])) + 0.05
+    ov, tol = _variant(o, variant)
+    hv, _ = _variant(h, variant)
+    if tol is None:
+        o, h, tol = ov.astype(float), hv.astype(float), TOL
+    T = 0.5 + np.cos(np.arange(o.size).reshape(o.shape)) ** 2
+    pairs = [('conv', cv.conv(ov, hv), cv.conv(o, h)),
+             ('apply_transfer_functions[arrays]', cv.apply_transfer_functions(ov, 1.0, [T, T], shift=True),
+              cv.apply_transfer_functions(o, 1.0, [T, T], shift=True)),
+             ('apply_transfer_functions[callable]', cv.apply_transfer_functions(ov, 0.5, [_callable('pixel', 1.5, 0.9)]),
+              cv.apply_transfer_functions(o, 0.5, [_callable('pixel', 1.5, 0.9)])),
+             ('mtf_from_psf', ot.mtf_from_psf(hv, 1.0).data, ot.mtf_from_psf(h, 1.0).data),
+             ('otf_from_psf', ot.otf_from_psf(hv, 1.0).data, ot.otf_from_psf(h, 1.0).data)]
+    for name, got, exp in pairs:
+        if not _close(np.asarray(got, dtype=complex if np.iscomplexobj(got) else float), exp, tol):
+            return False, f'{name} on a {variant} input differs from the float64 contiguous result: {_err(got, exp)}'
+    return True, 'ok'
+
+
 PREDS = {'conv_delta': pred_conv_delta, 'conv_comm': pred_conv_comm, 'conv_linear': pred_conv_linear,
          'conv_sum': pred_conv_sum, 'conv_direct': pred_conv_direct, 'tf_ones': pred_tf_ones, 'tf_list': pred_tf_list,
-         'tf_conventions': pred_tf_conventions, 'tf_callable': pred_tf_callable, 'tf_callable_grids': pred_tf_callable_grids, 'tf_psf': pred_tf_psf, 'mtf': pred_mtf}
+         'tf_conventions': pred_tf_conventions, 'tf_callable': pred_tf_callable, 'tf_callable_grids': pred_tf_callable_grids, 'tf_psf': pred_tf_psf, 'mtf': pred_mtf,
+         'otf_container': pred_otf_container, 'input_variants': pred_input_variants}
 
 
 def _run_pred(name, inp):
@@ -388,24 +479,32 @@ def _tf_lists(rng, shape, k):
     return out
 
 
-CALL_KINDS = ['jitter', 'smear', 'pixel', 'olpf', 'fx', 'fy', 'ft']
+CALL_KINDS = ['jitter', 'smear', 'pixel', 'olpf', 'fx', 'fy', 'ft', 'phase', 'pixel', 'smear', 'olpf', 'const', 'noarg']
 
 
 def _calls(rng, dx, k):
+    """callables of fx / fy / fr / ft.  Widths up to 4 dx (sinc and cos change sign inside the band), a complex linear
+    phase, asymmetric functions of fx / fy / ft, a scalar-returning and a zero-parameter callable"""
     out = []
     for _ in range(k):
         kind = CALL_KINDS[int(rng.integers(len(CALL_KINDS)))]
         if kind == 'jitter':
             c = (kind, float(np.round(rng.uniform(0.2, 1.2) * dx, 3)), 0.0)
         elif kind == 'smear':
-            w = float(np.round(rng.uniform(0.3, 2.0) * dx, 3))
-            h = float(np.round(rng.uniform(0.3, 2.0) * dx, 3))
+            w = float(np.round(rng.uniform(0.3, 4.0) * dx, 3))
+            h = float(np.round(rng.uniform(0.3, 4.0) * dx, 3))
             z = int(rng.integers(4))
             c = (kind, 0.0 if z == 1 else w, 0.0 if z == 2 else h)
-        elif kind in ('pixel', 'olpf'):
-            c = (kind, float(np.round(rng.uniform(0.2, 1.5) * dx, 3)), float(np.round(rng.uniform(0.2, 1.5) * dx, 3)))
+        elif kind == 'pixel':
+            c = (kind, float(np.round(rng.uniform(0.2, 4.0) * dx, 3)), float(np.round(rng.uniform(0.2, 4.0) * dx, 3)))
+        elif kind == 'olpf':
+            c = (kind, float(np.round(rng.uniform(0.2, 3.0) * dx, 3)), float(np.round(rng.uniform(0.2, 3.0) * dx, 3)))
         elif kind in ('fx', 'fy'):
             c = (kind, float(np.round(rng.uniform(0, 2) * dx * dx, 3)), float(np.round(rng.uniform(-1, 1) * dx, 3)))
+        elif kind == 'phase':
+            c = (kind, float(np.round(rng.uniform(-2, 2) * dx, 3)), float(np.round(rng.uniform(-2, 2) * dx, 3)))
+        elif kind in ('const', 'noarg'):
+            c = (kind, float(np.round(rng.uniform(-1.5, 1.5), 3)), 0.0)
         else:
             c = (kind, float(np.round(rng.uniform(-0.4, 0.4), 3)), float(np.round(rng.uniform(-0.4, 0.4), 3)))
         out.append(c)
@@ -516,6 +615,10 @@ def correspondence(ctx):
             _check(ctx, 'conv_delta', {'o': _l(oo), 'pos': [j0, i0]}, {'shape': list(shape), 'pos': [j0, i0]},
                    nt, tag + ('origin' if (j0, i0) == (m // 2, n // 2) else ''))
         _check(ctx, 'tf_psf', base, desc, nt, tag)
+        variant = ('float32', 'int', 'fortran', 'strided', 'reversed')[(m * 3 + n) % 5]
+        _check(ctx, 'input_variants', dict(base, variant=variant), dict(desc, variant=variant), nt, variant)
+        # purity: no caller-owned array is modified, a second call gives the same answer
+        C.pure_call(ctx, 'conv', dict(base, item='conv_comm'), cv.conv, o.copy(), h.copy())
 
     # ---------------- transfer-function lists given as arrays
     reps = ctx.scale(1, 4)
@@ -548,6 +651,8 @@ def correspondence(ctx):
                 ask(f'tf {int(shift)} {m} {n} {k} {_fl(o)} ' + ' '.join(_cfl(t) for t in tfs), chk)
                 inp = {'o': _l(o), 'tfs': [_cl(t) for t in tfs], 'shift': shift}
                 _check(ctx, 'tf_list', inp, desc, nt, tag)
+                if k >= 1:
+                    C.pure_call(ctx, 'tf_arrays', dict(inp, item='tf_list'), cv.apply_transfer_functions, o.copy(), 1.0, [t.copy() for t in tfs], shift=shift)
                 if not shift:
                     _check(ctx, 'tf_conventions', inp, desc, nt, tag)
 
@@ -557,7 +662,7 @@ def correspondence(ctx):
         nt = m * n > 1
         for rep in range(reps):
             dx = [1.0, 0.5, 2.0][int(rng.integers(3))]
-            k = int(rng.integers(1, 4))
+            k = int(rng.integers(1, 5))
             calls = _calls(rng, dx, k)
             o = rng.uniform(-1, 1, shape)
             desc = {'shape': list(shape), 'dx': dx, 'calls': [list(c) for c in calls]}
@@ -592,6 +697,10 @@ def correspondence(ctx):
                     + ' ' + _fl(o), chk)
             _check(ctx, 'tf_callable', {'o': _l(o), 'dx': dx, 'calls': [list(c) for c in calls]}, desc, nt,
                    '+'.join(c[0] for c in calls))
+            if k >= 2:      # array first / array in the middle / array last, on the internally built grids
+                flags = [bool((j + rep) % 2 == 0) for j in range(k)]
+                _check(ctx, 'tf_callable', {'o': _l(o), 'dx': dx, 'calls': [list(c) for c in calls], 'as_array': flags},
+                       dict(desc, as_array=flags), nt, 'mixed/' + ''.join('A' if f else 'c' for f in flags))
             for gk, pol, mixed in (('1d', False, False), ('2d', False, True), ('2d', True, False), ('1d', True, True))[rep % 2::2]:
                 _check(ctx, 'tf_callable_grids', {'o': _l(o), 'dx': dx, 'calls': [list(c) for c in calls], 'grid': gk,
                                                   'polar': pol, 'mixed': mixed},
@@ -632,6 +741,35 @@ def correspondence(ctx):
                     ctx.disagree('mtf.model_route', desc, _err(mo, md), 'model pipeline vs model direct sum')
             ask(f'mtf {m} {n} {_fl(p)}', chk)
             _check(ctx, 'mtf', {'psf': _l(p), 'dx': dx}, desc, nt, f'{kind}/par{m % 2}{n % 2}')
+            if kind in ('random', 'gaussian'):
+                _check(ctx, 'otf_container', {'psf': _l(p), 'dx': dx}, desc, nt, f'{kind}/par{m % 2}{n % 2}')
+
+    # ---------------- large / prime / long-thin shapes (size-gated code paths): property predicates only
+    large = [(33, 37), (64, 64), (128, 9), (41, 41), (3, 353)] + ([(97, 101), (256, 5), (128, 128)] if ctx.thorough else [])
+    for shape in large:
+        m, n = shape
+        tag = f'large/par{m % 2}{n % 2}'
+        o, h, o2 = rng.uniform(-1, 1, shape), rng.uniform(-1, 1, shape), _obj(shape, 1)
+        desc = {'shape': list(shape), 'large': True}
+        base = {'o': _l(o), 'h': _l(h)}
+        _check(ctx, 'conv_comm', base, desc, True, tag)
+        _check(ctx, 'conv_sum', base, desc, True, tag)
+        _check(ctx, 'conv_linear', dict(base, o2=_l(o2), a=1.25, b=-0.5), desc, True, tag)
+        for (j0, i0) in [(m // 2, n // 2), (0, 0), (m - 1, n - 1), (int(rng.integers(m)), int(rng.integers(n)))]:
+            _check(ctx, 'conv_delta', {'o': _l(o), 'pos': [j0, i0]}, dict(desc, pos=[j0, i0]), True, tag)
+        _check(ctx, 'tf_psf', base, desc, True, tag)
+        for shift in (False, True):
+            _check(ctx, 'tf_ones', {'o': _l(o), 'shift': shift}, dict(desc, shift=shift), True, tag)
+            _check(ctx, 'tf_list', {'o': _l(o), 'tfs': [_cl(t) for t in _tf_lists(rng, shape, 3)], 'shift': shift}, dict(desc, shift=shift), True, tag)
+        _check(ctx, 'tf_conventions', {'o': _l(o), 'tfs': [_cl(t) for t in _tf_lists(rng, shape, 2)]}, desc, True, tag)
+        calls = _calls(rng, 1.0, 3)
+        _check(ctx, 'tf_callable', {'o': _l(o), 'dx': 1.0, 'calls': [list(c) for c in calls], 'as_array': [True, False, False]},
+               dict(desc, calls=[list(c) for c in calls]), True, tag)
+        _check(ctx, 'tf_callable_grids', {'o': _l(o), 'dx': 1.0, 'calls': [list(c) for c in calls], 'grid': '2d', 'polar': True},
+               dict(desc, calls=[list(c) for c in calls], grid='2d'), True, tag)
+        for (kind, p) in _psfs(rng, shape)[:2]:
+            _check(ctx, 'mtf', {'psf': _l(p), 'dx': 1.0}, dict(desc, psf=kind), True, tag)
+            _check(ctx, 'otf_container', {'psf': _l(p), 'dx': 0.5}, dict(desc, psf=kind), True, tag)
 
     rows = C.lean_driver('C15', lines)
     for row, fn in zip(rows, todo):
@@ -685,15 +823,31 @@ def search(ctx, hints):
             for k in (2, 3):
                 tests.append(('tf_list', {'o': _l(o), 'tfs': [_cl(t) for t in _tf_lists(rng, shape, k)], 'shift': shift}))
         tests.append(('tf_conventions', {'o': _l(o), 'tfs': [_cl(t) for t in _tf_lists(rng, shape, 2)]}))
-        for c in (('jitter', 0.7, 0.0), ('smear', 1.3, 0.0), ('pixel', 0.9, 1.1), ('fx', 0.5, 0.5), ('fy', 0.5, -0.5), ('ft', 0.3, 0.2)):
+        for c in (('jitter', 0.7, 0.0), ('smear', 1.3, 0.0), ('pixel', 0.9, 1.1), ('fx', 0.5, 0.5), ('fy', 0.5, -0.5), ('ft', 0.3, 0.2),
+                  ('pixel', 3.0, 2.5), ('olpf', 2.2, 1.9), ('phase', 1.25, -0.5), ('const', -0.75, 0.0), ('noarg', 0.5, 0.0)):
             tests.append(('tf_callable', {'o': _l(o), 'dx': 1.0, 'calls': [list(c)]}))
             for gk, pol in (('1d', False), ('2d', True)):
                 tests.append(('tf_callable_grids', {'o': _l(o), 'dx': 1.0, 'calls': [list(c)], 'grid': gk, 'polar': pol}))
+        for flags in ([True, False], [False, True], [True, False, True]):
+            cl = [['pixel', 3.0, 2.5], ['jitter', 0.7, 0.0], ['phase', 0.5, 0.25]][:len(flags)]
+            tests.append(('tf_callable', {'o': _l(o), 'dx': 1.0, 'calls': cl, 'as_array': flags}))
         tests.append(('tf_callable_grids', {'o': _l(o), 'dx': 0.5, 'calls': [['jitter', 0.4, 0.0], ['pixel', 0.45, 0.55]],
                                             'grid': '2d', 'polar': False, 'mixed': True}))
         for kind, p in _psfs(rng, shape):
             tests.append(('mtf', {'psf': _l(p), 'dx': 1.0}))
+            tests.append(('otf_container', {'psf': _l(p), 'dx': 1.0}))
+        for variant in ('float32', 'int', 'fortran', 'strided'):
+            tests.append(('input_variants', {'o': _l(o), 'h': _l(h), 'variant': variant}))
         for name, inp in tests:
+            ok, detail = _run_pred(name, inp)
+            if not ok:
+                return found(name, inp, detail)
+    for shape in ((33, 37), (64, 64)):
+        o, h = _obj(shape), _obj(shape, 3)
+        for name, inp in (('conv_delta', {'o': _l(o), 'pos': [shape[0] // 2, shape[1] // 2]}), ('conv_delta', {'o': _l(o), 'pos': [1, 2]}),
+                          ('conv_comm', {'o': _l(o), 'h': _l(h)}), ('tf_psf', {'o': _l(o), 'h': _l(h)}),
+                          ('tf_ones', {'o': _l(o), 'shift': False}), ('tf_ones', {'o': _l(o), 'shift': True}),
+                          ('tf_callable', {'o': _l(o), 'dx': 1.0, 'calls': [['pixel', 3.0, 2.5], ['jitter', 0.7, 0.0]]})):
             ok, detail = _run_pred(name, inp)
             if not ok:
                 return found(name, inp, detail)
@@ -707,7 +861,7 @@ def replay(inp):
         print('no replay routine for item', name)
         return False
     shape = np.asarray(inp.get('o', inp.get('psf'))).shape
-    print(f'replaying {name} on shape {shape}: ' + ', '.join(f'{k}={v}' for k, v in inp.items() if k in ('pos', 'shift', 'dx', 'calls', 'a', 'b', 'grid', 'polar', 'mixed')))
+    print(f'replaying {name} on shape {shape}: ' + ', '.join(f'{k}={v}' for k, v in inp.items() if k in ('pos', 'shift', 'dx', 'calls', 'a', 'b', 'grid', 'polar', 'mixed', 'as_array', 'container', 'variant')))
     ok, detail = _run_pred(name, inp)
     print(detail)
     return not ok
@@ -716,22 +870,30 @@ def replay(inp):
 MANIFEST_ENTRY = {
     'technique': 'Lean 4 proof (finite Fourier analysis on ZMod m x ZMod n from root-of-unity orthogonality) over '
                  'translator-generated pipelines + correspondence of an executable model with the real functions',
-    'text': ('PROVED for every finite abelian index group (every shape, parity, number of axes), every DFT kernel satisfying '
-             'root-of-unity orthogonality (itself proved from primitive roots; instance exp(-2 pi i/n)): conv is the centred circular '
-             'convolution sum_q o[q] h[p-q+c]; commutativity, linearity, impulse at the origin = identity, impulse at c+k = cyclic '
-             'translation by k, total(image) = total(o) total(h); a list of transfer functions = their product, all-ones and the '
-             'empty list = identity in the shifted and the unshifted convention, the two conventions agree (fftshift T vs T, whole '
-             'lists, and callables evaluated on the grid of the convention), transform_psf fed to the shifted convention = conv; '
-             'MTF(0)=1, 0<=MTF<=1 for non-negative PSFs (triangle inequality), MTF point-symmetric (mod shape), OTF Hermitian, '
-             'MTF=|OTF|, OTF=MTF exp(i PTF) with the real Complex.arg/exp; unit DC gain and evenness of jitter/smear/pixel/OLPF. '
-             'On the m x n grid the proved sums are shown equal, sample for sample, to the executable model double sums and roll '
-             'index maps. TRANSLATED from the source each run: conv, apply_transfer_functions (both conventions, loop step, return '
-             'leg), transform_psf, mtf/ptf/otf as terms over an abstract fft2/ifft2/fftshift/ifftshift/*/real/abs/angle signature, '
-             'the reference index, the frequency-grid wiring (per-axis order, origin follows the convention, polar from cartesian, '
-             'keyword table), the analytic transfer-function formulas. MODELLED AND COMPARED: the pipelines run with an O(N^2) DFT '
-             'on doubles and the direct sums vs prysm on all shapes up to the tier bound, impulses at every position, TF lists as '
-             'arrays and callables.'),
+    'text': ('PROVED for every finite abelian index group G and every DFT kernel satisfying root-of-unity orthogonality (itself '
+             'proved from primitive roots; instance exp(-2 pi i/n)); the instance describing prysm is G = ZMod m x ZMod n, every '
+             'm, n >= 1 (the source is 2-D: stacks of images are not covered): conv is the centred circular convolution '
+             'sum_q o[q] h[p-q+c]; commutativity, linearity, impulse at the origin = identity, impulse at c+k = cyclic translation '
+             'by k, total(image) = total(o) total(h); a list of transfer functions = their product, all-ones and the empty list = '
+             'identity in both conventions, the two conventions agree (fftshift T vs T, whole lists); CALLABLES: arbitrary '
+             'functions of the frequency coordinates evaluated on the grids that apply_transfer_functions builds (forward_ft_unit '
+             'and its call site are translated from fttools.py / convolution.py) give the same image in both conventions; '
+             'transform_psf fed to the shifted convention = conv; image total = object total x DC gain; MTF(0)=1, 0<=MTF<=1 for '
+             'non-negative PSFs, MTF point-symmetric (mod shape), OTF Hermitian, MTF=|OTF|, OTF=MTF exp(i PTF) (real '
+             'Complex.arg/exp), also when the source takes the angle without normalising; a container goes through the same '
+             'transform as its .data; unit DC gain and evenness of jitter/smear/pixel/OLPF. On the m x n grid the proved sums equal, '
+             'sample for sample, the executable model double sums and roll index maps (bridge theorems). TRANSLATED each run (every '
+             'statement of apply_transfer_functions must be recognised, else the item is reported as TIE-DEGRADED): conv, '
+             'apply_transfer_functions (both conventions, loop step, `tf = tf(**kwargs)`, return leg), forward_ft_unit, the grid '
+             'call site (axis, shift), transform_psf incl. the container branch, mtf/ptf/otf, the reference index, analytic '
+             'transfer functions. RECOGNISER FACTS only (no Lean content): polar grids from cartesian, keyword table. MODELLED AND '
+             'COMPARED (the driver runs the HAND model; the generated terms are tied to it by the gen_* theorems): pipelines with '
+             'an O(N^2) DFT on doubles and direct sums vs prysm on all shapes up to the tier bound, impulses at every position, TF '
+             'lists as real/complex arrays, as callables (sign-changing, complex, scalar-returning, zero-parameter) on built and on '
+             'caller-supplied grids, mixed array/callable lists; predicates only on large/prime shapes (to 128x128), float32 / '
+             'integer / Fortran / strided inputs, RichData and duck-typed containers, repeated calls (no aliasing).'),
     'note': ('Trusted: scipy.fft computes the DFT sum (the contract the theorems assume, proved satisfiable); fftshift/ifftshift '
-             'semantics (compared with the model index maps every run); floating point (1e-9 relative). Not covered: rounding error '
-             'growth; prysm.objects; diffraction_limited_mtf and the atmospheric OTF formulas.'),
+             'and fftfreq semantics (compared with the model index maps every run); floating point (1e-9 relative; float32 2e-4). '
+             'Not covered: rounding error growth; prysm.objects; diffraction_limited_mtf and the atmospheric OTF formulas; the '
+             'frequency spacing reported by the returned RichData for non-square PSFs (single dx from axis 0).'),
 }
